@@ -257,7 +257,6 @@ func enumNames(e *tbEnum) []string {
 	return out
 }
 
-
 // enumPredicate: a method of an enumeration (or a function of one enumeration-typed argument) that returns a bool and
 // does nothing but compare its argument with constants.
 func enumPredicate(fn *ssa.Function) bool {
